@@ -162,6 +162,10 @@ def run(model, rep):
     from . import rename_e2e
     rep.rule('C03.E2E', 'renaming end to end on probe modules: same structure, consistent new names, no two bindings of one name meet (scopes from symtable), interface names untouched')
     rename_e2e.run(model, rep, 'C03.E2E')
+    # the printer's (slot x child) table as probe modules: names mentioned in every syntactic slot, in every way an expression can mention them
+    from . import slot_e2e
+    rep.rule('C03.SLOT', 'every expression slot of the grammar x every way an expression mentions names, as a module of its own through minify(rename_locals=True): alpha-equivalent to the original')
+    slot_e2e.run(model, rep, 'C03.SLOT', 'rename', 90, 800)
     rename_e2e.idioms(model, rep, 'C03.E2E')
     forms(model, rep)
     # white-box rules: written against internal functions of the renamer; they widen the inputs covered (synthetic scope worlds, 3200 generated names,
